@@ -1,4 +1,4 @@
-(* Texts whose line breaks are CR LF or CR instead of LF: [expand_nl nl t] replaces every line
+(* Texts whose line breaks are CR LF, CR or NEL instead of LF: [expand_nl nl t] replaces every line
    feed of [t] by [nl].  Definitions only; the proofs are in Opt/OptBreaks.v. *)
 From Coq Require Import List NArith Bool.
 From MV Require Import Base.PyStr.
@@ -13,6 +13,7 @@ Fixpoint expand_nl (nl : str) (t : str) : str :=
 
 Definition crlf (t : str) : str := expand_nl [13; 10] t.
 Definition cr_only (t : str) : str := expand_nl [13] t.
+Definition nel_only (t : str) : str := expand_nl [133] t.
 
 (* no carriage return in the text *)
 Definition no_cr (t : str) : bool := forallb (fun c => negb (c =? 13)) t.
